@@ -365,7 +365,9 @@ class Lui(RiscvInstruction):
 
     def encode(self):
         tokens = self.get_tokens()
-        imm20 = self.imm & 0xFFFFF
+        if self.imm not in range(0, 1 << 20):
+            raise ValueError(f"Cannot encode {self.imm} in lui [0,1048575]")
+        imm20 = self.imm
         tokens[0][0:7] = 0b0110111
         tokens[0][7:12] = self.rd.num
         tokens[0][12:32] = imm20
@@ -508,7 +510,7 @@ class Li(PseudoRiscvInstruction):
         else:
             if (self.imm & 0x800) != 0:
                 self.imm += 0x1000
-            yield Lui(self.rd, self.imm >> 12)
+            yield Lui(self.rd, (self.imm >> 12) & 0xFFFFF)
             lower_bits = sign_extend(self.imm, 12)
             yield Addi(self.rd, self.rd, lower_bits)
 
